@@ -136,6 +136,16 @@ CLAIMED['C05'] = dict(
     technique='TLA+ state machine with lifted children + TLC; spec->code replay with the plain program as second oracle',
     design_ref='3/C05')
 
+CLAIMED['C06'] = dict(
+    text=('LiftLoop.tla: nn.scan / nn.vmap / nn.remat_scan around a fixed integer body (param whose value is its key, counter variable, '
+          'make_rng, carry recurrence, per-iteration output) for every assignment of params and state to broadcast / carry / axis k (incl. '
+          'negative axes and Out-only declarations), length 1..3, reverse, unroll, in/out axes, split flags, init/apply; the specification '
+          'gives the explicit loop (processing order, per-iteration state, final carry, ys by index, stacked shapes, which iterations share '
+          'a key) and TLC checks loop and axis laws. Every configuration (sampled in quick) is instantiated with the real transforms and '
+          'compared exactly (integers): ys, final carry, per-iteration keys (equal iff same identity), stacked parameter slices, state.'),
+    technique='TLA+ integer loop model + TLC enumeration; spec->code replay of every configuration',
+    design_ref='3/C06')
+
 NOT_YET = 'check not built yet in this round (planned, see DESIGN.md section 3); not claimed until its specification is bound to the code'
 ALL = ['C%02d' % i for i in range(1, 21)]
 
